@@ -153,20 +153,24 @@ example : possibleCalls handlers
 
 /-! ## The build part / execute part split (regenerated `Gen.dryFns`, `Gen.dryReads`, `Gen.txSites`) -/
 
+set_option maxRecDepth 8192 in
 /-- (a) a DryRun test may only guard driver calls and what consumes their results: in every function
     reachable from a registered callback, every call dominated by a DryRun test is a driver call or a
     result consumer (never a hook call, association saving, clause building, ConvertTo*, Build, …) -/
 theorem C19_dry_guard_scope : TableScoped dryFns := by
   unfold TableScoped; decide
 
+set_option maxRecDepth 8192 in
 /-- every driver call of those functions is dominated by `!db.DryRun` -/
 theorem C19_dry_driver_guarded : TableGuarded dryFns := by
   unfold TableGuarded; decide
 
+set_option maxRecDepth 8192 in
 /-- transaction control inside the callbacks is dominated by `!db.Config.SkipDefaultTransaction` -/
 theorem C19_dry_tx_guarded : TableClsGuarded dryFns .tx "!db.Config.SkipDefaultTransaction" := by
   unfold TableClsGuarded; decide
 
+set_option maxRecDepth 8192 in
 /-- every syntactic read of `.DryRun` is one the dominance rule sees through (an `if` condition, a
     boolean alias used in `if` conditions only, or the left side of an assignment); DryRun is spelled
     `db.DryRun` in every condition of the callback package; inside package callbacks it is read only
@@ -178,6 +182,7 @@ theorem C19_dry_reads_accounted :
       ∃ f ∈ dryFns, f.name = r.fn ∧ ∃ c ∈ f.calls, c.cls = .driver ∧ "!db.DryRun" ∈ c.guards) := by
   decide
 
+set_option maxRecDepth 8192 in
 /-- outside package callbacks a DryRun test guards only: Execute's SQL/Vars reset, Save's fallback
     INSERT (a second statement, decided on the first one's result), Row's log line, and the
     migrator's introspection handle -/
@@ -192,6 +197,7 @@ theorem C19_root_dry_guard_scope :
            ("Migrator.GetQueryAndExecTx", "Session", "m.DB")] := by
   decide
 
+set_option maxRecDepth 8192 in
 /-- (b) every `Transaction(` / `Begin(` / `BeginTx(` call outside the explicit transaction API itself
     (`DB.Transaction`, `DB.Begin`, the prepared-statement pool's `BeginTx` wrapper) is dominated by a
     test of SkipDefaultTransaction on the handle it is called on -/
@@ -202,6 +208,7 @@ theorem C19_tx_sites_honour_skip :
        ("!" ++ s.recv ++ ".Config.SkipDefaultTransaction") ∈ s.guards) := by
   decide
 
+set_option maxRecDepth 8192 in
 /-- (c) RowQuery: BOTH the Rows branch (QueryContext) and the Row branch (QueryRowContext) exist and
     are dominated by the DryRun test -/
 theorem C19_rowquery_both_branches :
